@@ -74,6 +74,12 @@ CHECKS = {
    text="The deciding dimension is the abandon instant, enumerated at packet-event granularity per generated shape (thinned above 64 points); histories exceed the concurrent-stream limit; services with backpressure are generated too.",
    note="Trusted: fabric + paused clock; 'promptly' = within 1 virtual second. Between two fabric events nothing observable changes for the remote peer.",
    design="§4 C12"),
+ "C13": dict(
+   engine="simnet+proptest",
+   technique="property-based testing over long virtual-time schedules: generated known-peer tables, timing configurations and target start/stop/kick schedules; trace predicates (eligibility, rotation, minimum spacing, bounded time-to-connect, in-flight cap) over the fabric's black-box log of new connection attempts and the dialer's events; plus generated failure sequences against the backoff bookkeeping",
+   text="Hours of virtual time cost nothing, so backoff and rotation are observed over whole failure streaks; predicates rather than a lock-step model keep the oracle independent of hash-map order. Lower bounds are exact, upper bounds carry stated slack. Exploration.",
+   note="Trusted: fabric + paused clock; tick jitter pinned to 0 through hook H2. Attempt durations used by the predicates are lower bounds (a running or closing target answers at once; only a fully absent one costs the connect timeout). Upper-bound clauses are only claimed when the in-flight cap cannot be binding.",
+   design="§4 C13"),
  "C14": dict(
    engine="simnet+proptest",
    technique="exhaustive configuration grid over a small name alphabet on the simulated network + property-based adversarial SNI/certificate-name combinations (raw QUIC endpoint) + verifier-level generated name sets; oracle computed from the configuration alone and an x509 reference",
